@@ -224,7 +224,8 @@ func (fv *FuncVC) evalSpec(env *SpecEnv, e SExpr) Val {
 		for _, te := range x.Triggers {
 			tv := fv.evalSpec(ne, te)
 			for _, c := range tv.C {
-				if strings.HasPrefix(c, "(") {
+				// a trigger must be an application without connectives: a map read (an ite over presence) is not one
+				if strings.HasPrefix(c, "(") && !strings.Contains(c, "(ite ") && !strings.Contains(c, "(not ") && !strings.Contains(c, "(and ") && !strings.Contains(c, "(let ") {
 					pats = append(pats, c)
 				}
 			}
@@ -1437,6 +1438,12 @@ func (fv *FuncVC) checkPost(fr *Frame, b *ssa.BasicBlock, st *State, reach strin
 	if con == nil {
 		return
 	}
+	if coverReturns && fr.depth <= 1 {
+		// vacuity self-test: is this return point reachable under the precondition and the assumed contracts? (a return
+		// excluded by the precondition is expected; one excluded by a contradiction between assumed facts is a hole)
+		fv.nRetCover++
+		fv.cover(fmt.Sprintf("return@%s#%d", pos, fv.nRetCover), reach, "return point reachable", pos)
+	}
 	env := fv.frameEnv(fr, b, st)
 	rt := fv.resultType(fr.fn)
 	var cs []string
@@ -1632,7 +1639,9 @@ func (fv *FuncVC) pureEnsuresInstance(env *SpecEnv, fn *ssa.Function, con *Contr
 }
 
 // boundLoadFacts: heap closure for references read under a binder (where the ordinary type facts of a load are
-// not assumed): a reference stored in the heap of a state was allocated before that state. Stated once per heap
+// not assumed): a reference stored in an object that exists in a state was allocated before that state (objects
+// allocated later by callees that assign nothing are described by the same heap version at fresh indices, hence the
+// guard on the object). Stated once per heap
 // version and allocation counter as a quantified fact triggered by reads of that version.
 func (fv *FuncVC) boundLoadFacts(v Val, t types.Type, st *State, a *Addr) {
 	if fv.binderDepth == 0 || st == nil || st.cnt == "" {
@@ -1648,10 +1657,10 @@ func (fv *FuncVC) boundLoadFacts(v Val, t types.Type, st *State, a *Addr) {
 	switch a.Kind {
 	case AField:
 		h = fv.m.heapGet(st, fv.m.FieldKeys(a.StructT, a.Field)[0])
-		ax = fmt.Sprintf("(forall ((o!c Int)) (! (and (>= (select %s o!c) 0) (< (select %s o!c) %s)) :pattern ((select %s o!c))))", h, h, st.cnt, h)
+		ax = fmt.Sprintf("(forall ((o!c Int)) (! (=> (< o!c %s) (and (>= (select %s o!c) 0) (< (select %s o!c) %s))) :pattern ((select %s o!c))))", st.cnt, h, h, st.cnt, h)
 	case AElem:
 		h = fv.m.heapGet(st, fv.m.ElemKeys(a.T)[0])
-		ax = fmt.Sprintf("(forall ((o!c Int) (i!c Int)) (! (and (>= (select (select %s o!c) i!c) 0) (< (select (select %s o!c) i!c) %s)) :pattern ((select (select %s o!c) i!c))))", h, h, st.cnt, h)
+		ax = fmt.Sprintf("(forall ((o!c Int) (i!c Int)) (! (=> (< o!c %s) (and (>= (select (select %s o!c) i!c) 0) (< (select (select %s o!c) i!c) %s))) :pattern ((select (select %s o!c) i!c))))", st.cnt, h, h, st.cnt, h)
 	default:
 		return
 	}
